@@ -622,6 +622,41 @@ class VNamed(VTuple):
 class C10Executor(Executor):
     """Pack-local models of the abstract 7z header view (all ASSUMED views are listed in ASSUMED_MODELS)."""
 
+    # -- `class PropertyId(IntEnum): END = 0x00 ...`: a member of an int-valued enumeration of the module IS the int it is
+    #    defined with for ==, !=, <, in, hashing, arithmetic and str() (PY-INTENUM, Python >= 3.11); repr() / type() / `is`
+    #    differ and stay unmodelled (a member that reaches them is a VInt: `is` on ints is out of subset).  Only literal
+    #    int members of a class whose bases are exactly IntEnum / IntFlag / (int, Enum) are read this way.
+    def _int_enum_member(self, cls, attr):
+        node = self.module.classes.get(cls)
+        if node is None or node.keywords or node.decorator_list:
+            return None
+        bases = []
+        for b in node.bases:
+            d = b.id if isinstance(b, ast.Name) else (f"{b.value.id}.{b.attr}" if isinstance(b, ast.Attribute) and isinstance(b.value, ast.Name) else None)
+            if d is None:
+                return None
+            bases.append(self.module.imports.get(d.split(".")[0], d.split(".")[0]) + ("." + d.split(".", 1)[1] if "." in d else ""))
+        if bases not in (["enum.IntEnum"], ["enum.IntFlag"], ["int", "enum.Enum"]):
+            return None
+        found = None
+        for stmt in node.body:
+            if isinstance(stmt, ast.Assign) and len(stmt.targets) == 1 and isinstance(stmt.targets[0], ast.Name):
+                if stmt.targets[0].id in ("_ignore_", "_order_", "_generate_next_value_", "_missing_"):
+                    return None
+                if stmt.targets[0].id == attr:
+                    try:
+                        v = ast.literal_eval(stmt.value)
+                    except (ValueError, SyntaxError, TypeError):
+                        return None
+                    if type(v) is not int or found is not None:
+                        return None
+                    found = v
+            elif isinstance(stmt, (ast.FunctionDef, ast.AsyncFunctionDef)) and stmt.name in ("__eq__", "__hash__", "__str__", "__format__", "__new__", "__init__",
+                                                                                            "__int__", "__index__", "__lt__", "__le__", "__gt__", "__ge__", "__ne__",
+                                                                                            "_missing_", "_generate_next_value_"):
+                return None
+        return found
+
     # -- `def f(..., **opts)` / `g(**opts)`: keyword pass-through as an immutable dict with constant keys
     def bind_params(self, fnode, args, kwargs, node, st=None, self_val=None):
         kw = fnode.args.kwarg
@@ -713,6 +748,13 @@ class C10Executor(Executor):
     def get_attr(self, st, base, attr, node):
         if isinstance(base, VNamed) and attr in base.fields:
             return [(st, base.items[base.fields.index(attr)])]
+        if isinstance(base, VType) and not attr.startswith("_"):
+            try:
+                v = self._int_enum_member(base.name, attr)
+            except Exception:  # noqa  an unrecognised class shape is not an enum member
+                v = None
+            if v is not None:
+                return [(st, VInt(z3.IntVal(v)))]
         return super().get_attr(st, base, attr, node)
 
     _role_stack = ()
